@@ -60,11 +60,13 @@ TermLeaves == { T(1), T(2), T(3) }
 AnyLeaves  == TermLeaves \cup { AllQ, IdsQ, NoneQ }
 
 \* --- families -----------------------------------------------------------
-QLeaf  == { T(1), AllQ, IdsQ, NoneQ }
-QConj  == { x \in ConjOver(AnyLeaves, 3) : Small(x, 3) }
-QDisj  == { x \in DisjOver(AnyLeaves, 3) : Small(x, 3) }
-QBool  == { x \in BoolOver(TermLeaves \cup {AllQ}, 3) : Small(x, 3) }
-QFlat  == QLeaf \cup QConj \cup QDisj \cup QBool
+\* Every family takes a dummy argument so that TLC evaluates only the one a
+\* configuration selects (zero-arity definitions are all evaluated at start-up).
+QLeaf(u)  == { T(1), AllQ, IdsQ, NoneQ }
+QConj(u)  == { x \in ConjOver(AnyLeaves, 3) : Small(x, 3) }
+QDisj(u)  == { x \in DisjOver(AnyLeaves, 3) : Small(x, 3) }
+QBool(u)  == { x \in BoolOver(TermLeaves \cup {AllQ}, 3) : Small(x, 3) }
+QFlat(u)  == QLeaf(u) \cup QConj(u) \cup QDisj(u) \cup QBool(u)
 
 \* depth 2, at most 3 leaves, built shape by shape (a generic product over
 \* all depth-1 operands is too large to enumerate):
@@ -76,6 +78,8 @@ I2(a, b) ==
     \cup { Bool(<< a >>, << >>, 0, << b >>, << >>), Bool(<< a >>, << >>, 0, << >>, << b >>) }
     \cup { Bool(<< >>, << a >>, m, << b >>, << >>) : m \in 0..1 }
     \cup { Bool(<< >>, << a, b >>, m, << >>, << >>) : m \in 0..2 }
+    \cup { Bool(<< a, b >>, << >>, 0, << >>, << >>), Bool(<< >>, << >>, 0, << a, b >>, << >>),
+           Bool(<< >>, << >>, 0, << a >>, << b >>) }
 I1(a) == { Conj(<< a >>), Disj(<< a >>, 0), Disj(<< a >>, 1), Bool(<< >>, << >>, 0, << a >>, << >>),
            Bool(<< >>, << >>, 0, << >>, << a >>) }
 
@@ -98,11 +102,42 @@ Alone(x) ==
     { Conj(<< x >>), Disj(<< x >>, 0), Disj(<< x >>, 1), Bool(<< >>, << >>, 0, << x >>, << >>),
       Bool(<< >>, << >>, 0, << >>, << x >>), Bool(<< x >>, << >>, 0, << >>, << >>) }
 
-QDeep2 == UNION { Outer(x, T(3)) \cup Alone(x) : x \in I2(T(1), T(2)) }      \* 3 leaves / 2 leaves
-QDeep1 == UNION { Outer(x, T(2)) \cup Alone(x) : x \in I1(T(1)) }
-          \cup UNION { { Conj(<< x, y >>), Disj(<< x, y >>, 1), Disj(<< x, y >>, 2) } :
-                          x \in I1(T(1)), y \in I1(T(2)) }
-QDeep  == QDeep1 \cup QDeep2
+QDeep2(u) == UNION { Outer(x, T(3)) \cup Alone(x) : x \in I2(T(1), T(2)) }      \* 3 leaves / 2 leaves
+QDeep1(u) == UNION { Outer(x, T(2)) \cup Alone(x) : x \in I1(T(1)) }
+             \cup UNION { { Conj(<< x, y >>), Disj(<< x, y >>, 1), Disj(<< x, y >>, 2) } :
+                             x \in I1(T(1)), y \in I1(T(2)) }
+QDeep(u)  == QDeep1(u) \cup QDeep2(u)
+
+\* quick families.  core2: every compound over (at most) two terms, plus the
+\* non-term leaves in representative positions
+QCore2(u) ==
+    QLeaf(u) \cup I2(T(1), T(2)) \cup I1(T(1))
+    \cup { Conj(<< >>), Disj(<< >>, 0), Conj(<< T(1), T(1) >>), Disj(<< T(1), T(1) >>, 2),
+           Conj(<< T(1), AllQ >>), Conj(<< IdsQ, T(1) >>), Conj(<< T(1), NoneQ >>),
+           Disj(<< T(1), IdsQ >>, 0), Disj(<< T(1), IdsQ >>, 2), Disj(<< NoneQ, T(1) >>, 1), Disj(<< AllQ, T(1) >>, 2),
+           Bool(<< AllQ >>, << T(1) >>, 1, << >>, << >>), Bool(<< T(1) >>, << >>, 0, << IdsQ >>, << >>),
+           Bool(<< >>, << >>, 0, << IdsQ >>, << T(1) >>), Bool(<< IdsQ >>, << T(1) >>, 0, << >>, << >>) }
+\* depth-2 shapes chosen after the code's interesting paths: a boolean advanced by a
+\* conjunction (DESIGN lead 2), optimisable disjunctions/conjunctions nested in
+\* conjunctions/disjunctions/booleans, compound must-not and filter clauses
+QDeepQuick(u) ==
+    { Conj(<< T(3), Bool(<< T(1) >>, << T(2) >>, m, << >>, << >>) >>) : m \in 0..1 }
+    \cup { Conj(<< Bool(<< T(1) >>, << >>, 0, << T(2) >>, << >>), T(3) >>),
+           Conj(<< Disj(<< T(1), T(2) >>, 1), T(3) >>),
+           Disj(<< Conj(<< T(1), T(2) >>), T(3) >>, 1),
+           Bool(<< Disj(<< T(1), T(2) >>, 1) >>, << >>, 0, << T(3) >>, << >>),
+           Bool(<< T(3) >>, << >>, 0, << >>, << Disj(<< T(1), T(2) >>, 1) >>),
+           Bool(<< T(3) >>, << Conj(<< T(1), T(2) >>) >>, 1, << >>, << >>) }
+QDeepMore(u) ==
+    { Conj(<< Disj(<< T(1), T(2) >>, 2), T(3) >>), Disj(<< Conj(<< T(1), T(2) >>), T(3) >>, 2),
+      Disj(<< T(3), Disj(<< T(1), T(2) >>, 2) >>, 1),
+      Conj(<< Disj(<< T(1) >>, 1), T(2) >>),
+      Bool(<< T(3) >>, << >>, 0, << Conj(<< T(1), T(2) >>) >>, << >>),
+      Bool(<< >>, << Conj(<< T(1), T(2) >>), T(3) >>, 1, << >>, << >>) }
+MaxTerm(x) == LET ts == TermSeq(x) IN IF Len(ts) = 0 THEN 0 ELSE CHOOSE m \in { ts[i] : i \in DOMAIN ts } : \A i \in DOMAIN ts : ts[i] <= m
+QFlat2(u) == { x \in QFlat(u) : MaxTerm(x) <= 2 }
+QDisj2(u) == { x \in QDisj(u) : MaxTerm(x) <= 2 }
+QDisjCore(u) == { x \in QCore2(u) : x.type = "disj" } \cup { Disj(<< T(1), T(2), T(1) >>, m) : m \in 1..3 }
 
 \* --- the two shapes with open findings (checked in configurations of their own)
 \* Q2: BooleanSearcher.Advance as the very first call, must + should(min >= 1):
@@ -111,8 +146,8 @@ RECURSIVE HasMustShouldMin(_)
 HasMustShouldMin(x) ==
     \/ (x.type = "boolean" /\ Len(x.must) > 0 /\ Len(x.should) > 0 /\ x.min >= 1)
     \/ \E i \in DOMAIN Kids(x) : HasMustShouldMin(Kids(x)[i])
-\* K1: under score:none a should disjunction (min <= 1, >= 2 term children)
-\*     becomes an unadorned term searcher whose Min() is 0.
+\* K1: under score:none (and no term vectors) a should disjunction (min <= 1,
+\*     >= 2 term children) becomes an unadorned term searcher whose Min() is 0.
 RECURSIVE HasK1(_)
 HasK1(x) ==
     \/ (x.type = "boolean" /\ Len(x.must) > 0 /\ Len(x.should) >= 2 /\ x.min = 1)
@@ -121,35 +156,27 @@ HasK1(x) ==
 FirstAdvAlways(x) == TRUE
 FirstAdvNoQ2(x)   == ~HasMustShouldMin(x)
 
-\* quick families: at most two distinct terms (64 postings pairs instead of 4096 triples)
-MaxTerm(x) == LET ts == TermSeq(x) IN IF Len(ts) = 0 THEN 0 ELSE CHOOSE m \in { ts[i] : i \in DOMAIN ts } : \A i \in DOMAIN ts : ts[i] <= m
-QFlat2 == { x \in QFlat : MaxTerm(x) <= 2 }
-QDisj2 == { x \in QDisj : MaxTerm(x) <= 2 }
-\* depth-2 shapes chosen after the code's interesting paths: a boolean advanced by a
-\* conjunction (DESIGN lead 2), optimisable disjunctions/conjunctions nested in
-\* conjunctions/disjunctions/booleans, compound must-not and filter clauses
-QDeepQuick ==
-    { Conj(<< T(3), Bool(<< T(1) >>, << T(2) >>, m, << >>, << >>) >>) : m \in 0..1 }
-    \cup { Conj(<< Bool(<< T(1) >>, << >>, 0, << T(2) >>, << >>), T(3) >>) }
-    \cup { Conj(<< Disj(<< T(1), T(2) >>, m), T(3) >>) : m \in 0..2 }
-    \cup { Disj(<< Conj(<< T(1), T(2) >>), T(3) >>, m) : m \in 0..2 }
-    \cup { Disj(<< T(3), Disj(<< T(1), T(2) >>, 2) >>, 1), Conj(<< Conj(<< T(1), T(2) >>), T(3) >>),
-           Conj(<< Disj(<< T(1) >>, 1), T(2) >>), Disj(<< Disj(<< T(1) >>, 1), T(2) >>, 1) }
-    \cup { Bool(<< Disj(<< T(1), T(2) >>, 1) >>, << >>, 0, << T(3) >>, << >>),
-           Bool(<< T(3) >>, << >>, 0, << Conj(<< T(1), T(2) >>) >>, << >>),
-           Bool(<< T(3) >>, << >>, 0, << >>, << Disj(<< T(1), T(2) >>, 1) >>),
-           Bool(<< >>, << >>, 0, << >>, << Conj(<< T(1), T(2) >>) >>),
-           Bool(<< >>, << Conj(<< T(1), T(2) >>), T(3) >>, 1, << >>, << >>),
-           Bool(<< T(3) >>, << Conj(<< T(1), T(2) >>) >>, 1, << >>, << >>),
-           Bool(<< >>, << T(3) >>, 0, << Disj(<< T(1), T(2) >>, 2) >>, << >>) }
+QK1(u) == { x \in QBool(u) : HasK1(x) /\ MaxTerm(x) <= 2 }
+QQ2(u) == { x \in I2(T(1), T(2)) : HasMustShouldMin(x) }
 
-QFlatNoK1 == { x \in QFlat : ~HasK1(x) }
-QFlat2NoK1 == { x \in QFlat2 : ~HasK1(x) }
-QDeepQuickNoK1 == { x \in QDeepQuick : ~HasK1(x) }
-QTerm == { T(1) }
-QReplay == QFlat2 \cup QDeepQuick
-QReplayNoK1 == { x \in QReplay : ~HasK1(x) }
-QDeepNoK1 == { x \in QDeep : ~HasK1(x) }
-QK1 == { x \in QBool : HasK1(x) }
-QQ2 == { x \in QBool : HasMustShouldMin(x) }
+\* --- selection by the configuration
+CONSTANTS Family,   \* name of the family
+          DropK1    \* TRUE: leave out the K1 shapes (they have a configuration of their own)
+FamilyOf(f) ==
+  CASE f = "leaf"     -> QLeaf(0)
+    [] f = "term"     -> { T(1) }
+    [] f = "core2"    -> QCore2(0)
+    [] f = "disjcore" -> QDisjCore(0)
+    [] f = "deepq"    -> QDeepQuick(0)
+    [] f = "deepq2"   -> QDeepQuick(0) \cup QDeepMore(0)
+    [] f = "replayq"  -> QCore2(0) \cup QDeepQuick(0) \cup QDeepMore(0)
+    [] f = "flat"     -> QFlat(0)
+    [] f = "flat2"    -> QFlat2(0)
+    [] f = "disj"     -> QDisj(0)
+    [] f = "disj2"    -> QDisj2(0)
+    [] f = "bool"     -> QBool(0)
+    [] f = "deep"     -> QDeep(0)
+    [] f = "k1"       -> QK1(0)
+    [] f = "q2"       -> QQ2(0)
+MCQueries == IF DropK1 THEN { x \in FamilyOf(Family) : ~HasK1(x) } ELSE FamilyOf(Family)
 =============================================================================
